@@ -171,6 +171,8 @@ class Machine(S.Impl):
 
             async def on_state_change(self, s):
                 eff.append(("S", int(s)))
+                if int(s) > 3 and self._socket_writer is None:
+                    m.trace.append(("revived", m.cur, int(s)))
                 await Suspend("onStateChange")
 
             async def should_replay(self, msg):
@@ -222,6 +224,24 @@ class Machine(S.Impl):
             return n
 
         sess.allocate_next_num_out = allocate_next_num_out
+
+        # a library coroutine that spawns a task (none does in the unchanged tree): the spawned coroutine
+        # becomes one more hand-driven task of the controlled scheduler
+        def spawn(coro, **_kw):
+            m.coros.append(coro)
+            m.status.append("new")
+            m.task_defs.append(("spawned", m.now_ms))
+            return coro
+
+        self.cm.asyncio.ensure_future = spawn
+        self.cm.asyncio.create_task = spawn
+
+        async def _sleep(d):
+            if d:
+                raise S._Done()  # the `await asyncio.sleep(1)` that ends an iteration of a library task
+            await Suspend("sleep")  # a bare `sleep(0)` yields to the event loop
+
+        self.cm.asyncio.sleep = _sleep
 
     def on_write(self, b):
         self.trace.append(("write", self.cur, b))
@@ -390,6 +410,10 @@ def scenarios(tier="quick"):
     add("2send:ahead-journal", active(shape="ahead"), [("send", T0, APP("a")), ("send", T0 + 125, APP("b"))])
     add("2send:logon+logon(initiator)", fresh_net(1), [("send", T0, LOGON), ("send", T0 + 125, LOGON)])
     add("2send:logon+app(role unknown)", fresh_net(0), [("send", T0, LOGON), ("send", T0 + 125, APP("early"))])
+    add("2send:logon-nonlatin1+app(role unknown)", fresh_net(0),
+        [("send", T0, ("A", [(98, "0"), (108, "30"), (58, "€")])), ("send", T0 + 125, APP("early"))])
+    add("2send:logon-nonlatin1+logout(initiator)", fresh_net(1),
+        [("send", T0, ("A", [(98, "0"), (108, "30"), (58, "€")])), ("send", T0 + 125, ("5", []))])
     add("2send:big-counters", active(ni=2**32 + 3, no=2**33 + 1), [("send", T0, APP("a")), ("send", T0 + 125, APP("b"))])
     # ---- sender + watchdog tick
     add("send+tick:testrequest", active(last_time=T0 - 30000), [("send", T0, APP("a")), ("tick", T0)], toggles=2)
@@ -506,6 +530,8 @@ def explore(m: Machine, scn, paused, bound, visited=None, max_paths=None, on_pat
             if l in ("pause", "resume"):
                 used += 1
             else:
+                while len(progress) <= int(l[1:]):
+                    progress.append(0)
                 progress[int(l[1:])] += 1
             recs.append(m.step(l))
             letters.append(l)
@@ -757,7 +783,7 @@ def correspondence(ctx):
             "evaluations": evals,
             "distinct_nontrivial": len({hash(x) for x in cmp_.shapes} | shapes_extra),
             "rule": "every schedule = (initial connection incl. journal, task set, initial back-pressure, letters); "
-                    "quick: all schedules of {2 senders} x7, {sender + tick} x4, {sender + reader with one inbound frame: "
+                    "quick: all schedules of {2 senders} x9, {sender + tick} x4, {sender + reader with one inbound frame: "
                     "Logon x3, TestRequest, ResendRequest x8 (1-3 journaled messages, declined, session rows, holes, beyond, "
                     "while awaiting), high seqnum, app, Heartbeat x2, Logout, GapFill, SequenceReset, CompID mismatch} and "
                     "{reader + tick}, each with the transport initially free / paused, branching over every enabled letter "
@@ -853,11 +879,12 @@ def judge(m: Machine, a: S.AbsConn):
 
 def classify(m: Machine, sentences):
     """signature of a failing schedule.  D21 class: a NEW message took its number while a _process_resend was
-    between its two set_seq_num calls (or had died there)."""
+    between its two set_seq_num calls (or had died there).  Revived class: `_state_set` put the connection into
+    a connected state while there was no transport, and a later send died in `None.write`."""
     if any(t[0] == "alloc" and t[3] for t in m.trace):
         return SIG_D21
     kinds = sorted({s for s, _ in sentences})
-    if any(e[0] in ("C", "R") and e[1] == "Attribute" for e in m.eff):
+    if any(t[0] == "revived" for t in m.trace) and any(e[0] in ("C", "R") and e[1] == "Attribute" for e in m.eff):
         return SIG_NOTRANSPORT
     return "C14-" + "+".join(kinds)
 
